@@ -8,7 +8,7 @@ LOG=$SD/verify.log
 {
 git -C /repo worktree add -q --detach $WT HEAD || exit 9
 echo "== demo on clean tree"; (cd $WT && PYTHONPATH=$WT/src timeout 600 /venv/bin/python $SD/demo.py >/tmp/vs_demo_clean.$$ 2>&1; echo "exit=$?"; tail -3 /tmp/vs_demo_clean.$$)
-echo "== apply patch"; git -C $WT apply $SD/patch.diff && git -C $WT diff --stat
+echo "== apply patch"; if ! git -C $WT apply $SD/patch.diff; then echo "PATCH DOES NOT APPLY to /repo HEAD"; git -C /repo worktree remove --force $WT; exit 8; fi; git -C $WT diff --stat
 echo "== demo on patched tree"; (cd $WT && PYTHONPATH=$WT/src timeout 600 /venv/bin/python $SD/demo.py >/tmp/vs_demo_p.$$ 2>&1; echo "exit=$?"; tail -3 /tmp/vs_demo_p.$$)
 echo "== test suite on patched tree"
 (cd $WT && PYTHONPATH=$WT/src timeout 1500 /venv/bin/python -m pytest -q -p no:cacheprovider --timeout=900 --continue-on-collection-errors --junitxml=/tmp/vs_junit.$$.xml >/tmp/vs_pytest.$$ 2>&1; tail -1 /tmp/vs_pytest.$$)
